@@ -80,3 +80,56 @@ def neighbor_query(w, h, d, bc, i):
     got = g.get_neighbors(i)
     want = [j for j in range(w * h * d) if spec_neighbors(w, h, d, bc, i, j)]
     return sorted(set(got)) == want
+
+
+_GG = {}
+
+
+def graph_of(w, h, d, bc):
+    from strengths.coarsegrain import grid_to_graph
+    k = (w, h, d, bc)
+    if k not in _GG:
+        _GG[k] = grid_to_graph(grid(w, h, d, bc))
+    return _GG[k]
+
+
+def graph_adjacency(w, h, d, bc, i, j):
+    """on grid_to_graph(grid): the pairwise neighbour test, the edge lookup (both argument orders) and the neighbour query agree
+    with each other and with the grid's neighbour relation; the contact of two neighbours has the surface of a cell face"""
+    g, gr = grid(w, h, d, bc), graph_of(w, h, d, bc)
+    if i == j:
+        return True
+    s = spec_neighbors(w, h, d, bc, i, j)
+    e1, e2 = gr.get_edge(i, j), gr.get_edge(j, i)
+    if (e1 is None) != (not s) or (e2 is None) != (not s):
+        return False
+    if gr.are_neighbors(i, j) != s or gr.are_neighbors(j, i) != s:
+        return False
+    if (j in gr.get_neighbors(i)) != s or (i in gr.get_neighbors(j)) != s:
+        return False
+    if s:
+        if e1 is not e2 and {e1.i, e1.j} != {e2.i, e2.j}:
+            return False
+        if abs(float(e1.surface.value) - 4.0) > 1e-9 or abs(float(e1.distance.value) - 2.0) > 1e-9:      # cell volume 8 -> edge 2, face 4
+            return False
+    return True
+
+
+def graph_kinetics(w, h, d, bc, i):
+    """the Python rate law on grid_to_graph(grid) equals the one on the grid (pure diffusion, one-hot state in cell i)"""
+    from strengths import kinetics
+    if any(BCS[bc].get(a) == "periodical" and L == 2 for a, L in zip("xyz", (w, h, d))):
+        return True     # outside the property: the graph then has parallel edges, which the Python functions do not support
+    key = ("sys", w, h, d, bc)
+    if key not in _GG:
+        net = RDNetwork(species=[Species("A", D=1.5, density=0)], reactions=[])
+        _GG[key] = (RDSystem(net, grid(w, h, d, bc)), RDSystem(net, graph_of(w, h, d, bc)))
+    s1, s2 = _GG[key]
+    n = w * h * d
+    st = [0.0] * n
+    st[i] = 1000.0
+    s1.state = list(st)
+    s2.state = list(st)
+    a = [float(v) for v in kinetics.compute_dstatedt(s1).value]
+    b = [float(v) for v in kinetics.compute_dstatedt(s2).value]
+    return all(abs(x - y) <= 1e-9 * (1 + abs(x)) for x, y in zip(a, b))
